@@ -136,6 +136,19 @@ func hC13PassThrough() {
 		if verifTier() == 1 {
 			req.URL.RawQuery = "q=" + string(nondetBytes("query", 1))
 		}
+		// requests that fit no RPC protocol at all (what a web server mounted as the unknown-endpoint handler gets
+		// every day): still none of the transcoder's business on a path nobody configured
+		switch verifChoose("foreign", 5) {
+		case 1:
+			req.Header["Content-Type"] = []string{"text/html", "text/plain"} // two Content-Type values
+		case 2:
+			req.Header.Del("Content-Type")
+			req.Header.Set("Connect-Protocol-Version", "1") // (on a POST)
+		case 3:
+			req.URL.RawQuery = "connect=v1" // (on a POST / with a content-type that is not a Connect GET)
+		case 4:
+			req.Header.Set("Content-Type", "multipart/form-data; boundary=x")
+		}
 	}
 	wantHdr := req.Header.Clone()
 	wantURL := *req.URL
